@@ -1,12 +1,13 @@
 (* Model of /repo/air/src/layout.rs: layout_of, compute_layouts, resolved_layout, struct_layout,
    align_to, detect_self_references, references_by_value, field_struct_deps, topological_order.
    Definitions only.  The code is modelled as it is:
-   - all arithmetic is u32; [chk = true] is a build with overflow checks (arithmetic overflow is a
-     panic), [chk = false] a release build (wrap-around modulo 2^32);
+   - sizes and offsets are u32 and every addition / multiplication is checked: a result that
+     does not fit is the error TooLarge (the same in debug and release builds);
    - the name -> index map is built by `collect`, so the last struct with a name wins;
    - `resolved` is keyed by name: a later insert under the same name replaces the earlier one;
    - Kahn's algorithm pops from the END of the `queue` vector (a stack);
-   - every diagnostic is a panic; the panic classes are the constructors of [err].
+   - try_compute_layouts returns Err(LayoutError) and leaves the program unchanged; compute_layouts
+     and layout_of panic with the error's message; the error kinds are the constructors of [err].
    Struct and field names only matter up to equality, so names are numbers.  Field names are
    dropped (they only occur in panic messages). *)
 From Coq Require Import NArith Bool List.
@@ -31,7 +32,7 @@ Inductive err : Set :=
   | ESelfRef        (* "struct `X` has infinite size: field `f` contains `X` by value" *)
   | ECycle          (* "recursive struct cycle: A <-> B" *)
   | EUnresolved     (* "struct `X` referenced before its layout is computed" *)
-  | EOverflow       (* "attempt to add/subtract/multiply with overflow" (chk only) *)
+  | ETooLarge       (* LayoutError::TooLarge: "... is too large: its size does not fit in 32 bits" *)
   | ENeedsContext   (* layout_of on a Struct *)
   | EInternal.      (* index out of range / out of fuel: excluded by the theorems *)
 
@@ -44,21 +45,13 @@ Arguments Fail {A} e.
 Definition bind {A B} (r : res A) (f : A -> res B) : res B :=
   match r with Ok a => f a | Fail e => Fail e end.
 
-(* ---- u32 arithmetic *)
-Definition add32 (chk : bool) (a b : N) : res N :=
-  if chk && (W32 <=? a + b) then Fail EOverflow else Ok ((a + b) mod W32).
-Definition sub32 (chk : bool) (a b : N) : res N :=
-  if b <=? a then Ok (a - b) else if chk then Fail EOverflow else Ok (a + W32 - b).
-Definition mul32 (chk : bool) (a b : N) : res N :=
-  if chk && (W32 <=? a * b) then Fail EOverflow else Ok ((a * b) mod W32).
+(* ---- checked u32 arithmetic *)
+Definition add32 (a b : N) : res N := if W32 <=? a + b then Fail ETooLarge else Ok (a + b).
 Definition not32 (x : N) : N := N.lxor x (N.ones 32).
 
-(* fn align_to(offset, align) = (offset + align - 1) & !(align - 1) *)
-Definition align_to (chk : bool) (offset align : N) : res N :=
-  bind (add32 chk offset align) (fun t =>
-  bind (sub32 chk t 1) (fun u =>
-  bind (sub32 chk align 1) (fun m =>
-  Ok (N.land u (not32 m))))).
+(* fn align_to(offset, align) = Some(offset.checked_add(align - 1)? & !(align - 1)) *)
+Definition align_to (offset align : N) : res N :=
+  bind (add32 offset (align - 1)) (fun u => Ok (N.land u (not32 (align - 1)))).
 
 (* ---- resolved: HashMap<String, TypeLayout>, newest binding first *)
 Definition rmap : Set := list (N * (N * N)).
@@ -68,47 +61,47 @@ Fixpoint rlookup (m : rmap) (nm : N) : option (N * N) :=
   | (k, v) :: r => if k =? nm then Some v else rlookup r nm
   end.
 
-(* `*n as u32` truncates, then the multiplication is u32 *)
-Definition array_layout (chk : bool) (el : N * N) (n : N) : res (N * N) :=
-  bind (mul32 chk (fst el) (n mod W32)) (fun sz => Ok (sz, snd el)).
+(* array_layout: (el.size as u64).checked_mul(n) then u32::try_from; None = too large *)
+Definition array_layout (el : N * N) (n : N) : res (N * N) :=
+  if W32 <=? fst el * n then Fail ETooLarge else Ok (fst el * n, snd el).
 
-Fixpoint resolved_layout (chk : bool) (m : rmap) (t : ty) : res (N * N) :=
+Fixpoint resolved_layout (m : rmap) (t : ty) : res (N * N) :=
   match t with
   | TStruct nm => match rlookup m nm with Some l => Ok l | None => Fail EUnresolved end
-  | TArray t' n => bind (resolved_layout chk m t') (fun el => array_layout chk el n)
+  | TArray t' n => bind (resolved_layout m t') (fun el => array_layout el n)
   | TPrim p => Ok (prim_layout p)
   | TPtr _ => Ok (prim_layout PPtr)
   | TSlice _ => Ok (prim_layout PSlice)
   end.
 
-(* pub fn layout_of: no program context *)
-Fixpoint layout_of (chk : bool) (t : ty) : res (N * N) :=
+(* pub fn layout_of: no program context; panics on Struct and on a too large array *)
+Fixpoint layout_of (t : ty) : res (N * N) :=
   match t with
   | TStruct _ => Fail ENeedsContext
-  | TArray t' n => bind (layout_of chk t') (fun el => array_layout chk el n)
+  | TArray t' n => bind (layout_of t') (fun el => array_layout el n)
   | TPrim p => Ok (prim_layout p)
   | TPtr _ => Ok (prim_layout PPtr)
   | TSlice _ => Ok (prim_layout PSlice)
   end.
 
 (* the field loop of struct_layout: returns (offsets, running offset, max_align) *)
-Fixpoint fields_layout (chk : bool) (m : rmap) (fs : list ty) (offset max_align : N)
+Fixpoint fields_layout (m : rmap) (fs : list ty) (offset max_align : N)
   : res (list N * N * N) :=
   match fs with
   | [] => Ok ([], offset, max_align)
   | t :: r =>
-      bind (resolved_layout chk m t) (fun fl =>
-      bind (align_to chk offset (snd fl)) (fun o =>
-      bind (add32 chk o (fst fl)) (fun e =>
-      bind (fields_layout chk m r e (N.max max_align (snd fl))) (fun x =>
+      bind (resolved_layout m t) (fun fl =>
+      bind (align_to offset (snd fl)) (fun o =>
+      bind (add32 o (fst fl)) (fun e =>
+      bind (fields_layout m r e (N.max max_align (snd fl))) (fun x =>
       match x with (offs, e', ma) => Ok (o :: offs, e', ma) end))))
   end.
 
 (* struct_layout: (offsets, size, align) *)
-Definition struct_layout (chk : bool) (m : rmap) (fs : list ty) : res (list N * N * N) :=
-  bind (fields_layout chk m fs 0 1) (fun x =>
+Definition struct_layout (m : rmap) (fs : list ty) : res (list N * N * N) :=
+  bind (fields_layout m fs 0 1) (fun x =>
   match x with (offs, e, ma) =>
-    bind (align_to chk e ma) (fun sz => Ok (offs, sz, ma)) end).
+    bind (align_to e ma) (fun sz => Ok (offs, sz, ma)) end).
 
 (* ---- name_to_idx: the last struct with the name *)
 Fixpoint idx_from (E : list sdef) (nm : N) (i : nat) (acc : option nat) : option nat :=
@@ -202,8 +195,9 @@ Fixpoint set_nth {A} (l : list A) (i : nat) (x : A) : list A :=
   | y :: r, S j => y :: set_nth r j x
   end.
 
-(* offsets: None = the struct's fields still have `offset: None` *)
-Fixpoint lay (chk : bool) (E : list sdef) (order : list nat) (m : rmap) (offs : list (option (list N)))
+(* offsets: None = the struct's fields still have `offset: None`; the offsets are written to
+   the program only when every struct has been laid out *)
+Fixpoint lay (E : list sdef) (order : list nat) (m : rmap) (offs : list (option (list N)))
   : res (list (option (list N)) * rmap) :=
   match order with
   | [] => Ok (offs, m)
@@ -211,13 +205,13 @@ Fixpoint lay (chk : bool) (E : list sdef) (order : list nat) (m : rmap) (offs : 
       match nth_error E i with
       | None => Fail EInternal
       | Some d =>
-          bind (struct_layout chk m (sfields d)) (fun x =>
+          bind (struct_layout m (sfields d)) (fun x =>
           match x with (os, sz, al) =>
-            lay chk E r ((sname d, (sz, al)) :: m) (set_nth offs i (Some os)) end)
+            lay E r ((sname d, (sz, al)) :: m) (set_nth offs i (Some os)) end)
       end
   end.
 
-Definition compute_layouts (chk : bool) (E : list sdef) : res (list (option (list N)) * rmap) :=
+Definition compute_layouts (E : list sdef) : res (list (option (list N)) * rmap) :=
   if has_self_ref E then Fail ESelfRef else
   bind (topological_order E) (fun order =>
-  lay chk E order [] (map (fun _ => None) E)).
+  lay E order [] (map (fun _ => None) E)).
